@@ -4,6 +4,7 @@ From SPV Require Export Base.Corr Model.Leaf Model.LeafSpec Model.ConfigLoop Mod
                         Gen.FactsBool Gen.FactsLeaf Gen.FactsConfigLoop.
 
 Record case := mkcase {
+  c_env : enum_env;           (* the mixed-in Enum classes the case declares (IntEnum / (str, Enum)) *)
   c_schema : schema;          (* annotations and (effective) definition defaults *)
   c_inst : inst;              (* the instance that was saved *)
   c_suffix : string;          (* ".json" | ".yaml" | ".yml" | ".pkl" *)
@@ -24,7 +25,7 @@ Definition in_scope (c : case) : bool :=
 
 (* the model is run along the case's own route (regenerated wiring of parse_known_args / set_defaults / parse) *)
 Definition model_step (c : case) (x : inst) (o : res inst) : bool :=
-  res_eqb inst_eqb (config_run_gen c.(c_via) c.(c_api) "cfg" c.(c_suffix) c.(c_schema) x) o.
+  res_eqb inst_eqb (config_run_gen c.(c_env) c.(c_via) c.(c_api) "cfg" c.(c_suffix) c.(c_schema) x) o.
 
 Definition model_ok (c : case) : bool := model_step c c.(c_inst) c.(c_obs) && step2_all (model_step c) c.
 
